@@ -56,10 +56,11 @@ var soup = rapid.OneOf(
 	rapid.StringOfN(rapid.RuneFrom([]rune("a1.-_: \t#%[]/\\\"İKſ\xff")), 0, 40, -1),
 	rapid.Custom(func(t *rapid.T) string {
 		// Long strings around the interesting limits.
-		unit := rapid.SampledFrom([]string{"a", "a.", "ab.", "1.", "f.", "\xff", "é", "a-", "_a.", ":", "0:"}).Draw(t, "unit")
+		// (byte classes of UTF-8 included: continuation bytes, lead bytes without continuation, truncated sequences, NUL)
+		unit := rapid.SampledFrom([]string{"a", "a.", "ab.", "1.", "f.", "\xff", "é", "a-", "_a.", ":", "0:", "\x80", "\xbf", "\xa0\x80\xbf", "\xc3", "\xf0\x9f", "\x00", "世", "\U0001F600"}).Draw(t, "unit")
 		n := rapid.SampledFrom([]int{60, 62, 63, 64, 65, 126, 127, 128, 250, 252, 253, 254, 255, 300, 1000, 5000}).Draw(t, "n")
 		s := strings.Repeat(unit, n/len(unit)+1)[:n]
-		return s + rapid.SampledFrom([]string{"", ".", ".com", ".in-addr.arpa", ".ip6.arpa"}).Draw(t, "tail")
+		return s + rapid.SampledFrom([]string{"", ".", ".com", ".in-addr.arpa", ".ip6.arpa", " host.example", "\n1.2.3.4 a\n"}).Draw(t, "tail")
 	}),
 )
 
@@ -741,11 +742,17 @@ var ipSlice = rapid.Custom(func(t *rapid.T) net.IP {
 func Mask() *rapid.Generator[net.IPMask] { return mask }
 
 var mask = rapid.Custom(func(t *rapid.T) net.IPMask {
-	switch rapid.IntRange(0, 11).Draw(t, "form") {
+	switch rapid.IntRange(0, 12).Draw(t, "form") {
 	case 0:
 		return nil
 	case 1:
 		return net.IPMask{}
+	case 12:
+		// A dotted IPv4 mask in the 16-byte form that net.ParseIP / net.IPv4
+		// give it (::ffff:a.b.c.d), or with another 12-byte front.
+		m4 := net.CIDRMask(rapid.IntRange(0, 32).Draw(t, "ones4"), 32)
+		front := rapid.SampledFrom([]string{"\x00\x00\x00\x00\x00\x00\x00\x00\x00\x00\xff\xff", "\x00\x00\x00\x00\x00\x00\x00\x00\x00\x00\x00\x00", "\xff\xff\xff\xff\xff\xff\xff\xff\xff\xff\x00\x00"}).Draw(t, "front")
+		return net.IPMask(append([]byte(front), m4...))
 	case 10, 11:
 		// Word-wise canonical: every 1-, 2-, 4- or 8-byte word of the mask is
 		// "ones, then zeros" on its own (what a word-at-a-time check sees),
